@@ -546,6 +546,53 @@ def hook_mode(f, clsname):
 
 
 # ------------------------------------------------------------------ the converter registries
+def tag_normalisation(f, fname):
+    """does the method decode a bytes tag argument to text before using it as the key?
+    (`if isinstance(tag, bytes): tag = tag.decode("utf-8")`); any other rewriting of the tag parameter fails closed"""
+    need(len(f.args.args) >= 2, fname + " signature changed")
+    tagvar = f.args.args[1].arg
+    found = False
+    for n in ast.walk(f):
+        targets = []
+        if isinstance(n, ast.Assign):
+            targets = n.targets
+        elif isinstance(n, (ast.AugAssign, ast.AnnAssign)):
+            targets = [n.target]
+        elif isinstance(n, (ast.For, ast.comprehension)):
+            targets = [n.target]
+        elif isinstance(n, ast.NamedExpr):
+            targets = [n.target]
+        bound = []
+        for t in targets:
+            stack = [t]
+            while stack:
+                x = stack.pop()
+                if isinstance(x, (ast.Tuple, ast.List)):
+                    stack.extend(x.elts)
+                elif isinstance(x, ast.Starred):
+                    stack.append(x.value)
+                else:
+                    bound.append(x)
+        for t in bound:
+            for m in [t]:
+                if is_name(m, tagvar):
+                    ok = isinstance(n, ast.Assign) and len(n.targets) == 1 and is_name(n.targets[0], tagvar) and is_call(n.value, 1) \
+                        and isinstance(n.value.func, ast.Attribute) and n.value.func.attr == "decode" and is_name(n.value.func.value, tagvar) \
+                        and is_str(n.value.args[0], "utf-8")
+                    need(ok, "%s rewrites its tag argument in an unrecognised way: %s" % (fname, ast.unparse(n)[:70]))
+                    found = True
+    if found:
+        # the decode must be the guarded first statement
+        body = strip_doc(f.body)
+        st = body[0]
+        need(isinstance(st, ast.If) and not st.orelse and is_call(st.test, 2) and is_name(st.test.func, "isinstance") and is_name(st.test.args[0], tagvar)
+             and is_name(st.test.args[1], "bytes") and len(st.body) == 1 and isinstance(st.body[0], ast.Assign) and is_name(st.body[0].targets[0], tagvar),
+             "%s decodes its tag argument, but not as a guarded first statement" % fname)
+        need(sum(1 for n in ast.walk(f) if isinstance(n, ast.Assign) and any(is_name(t, tagvar) for t in n.targets)) == 1, fname + " rewrites its tag argument more than once")
+    return found
+
+
+
 def parse_registries(mod):
     """How register_* / unregister_* (classmethods of SerializerBase) change the class-level registry dicts:
     in place (`cls.__reg[k] = v`, `del cls.__reg[k]`: one dict shared by all serializer classes) or by rebinding
@@ -566,10 +613,12 @@ def parse_registries(mod):
                 nm = n.id if isinstance(n, ast.Name) else n.attr
                 need(nm not in attr_of.values(), "class %s touches the converter registry %s" % (cls.name, nm))
     out = {}
+    norm = {}
     for k, attr in attr_of.items():
         inplace = True
         for fname in ("register_" + k, "unregister_" + k):
             f = find_func(mod, fname, "SerializerBase")
+            norm[fname] = tag_normalisation(f, fname)
             need(any(isinstance(d, ast.Name) and d.id == "classmethod" for d in f.decorator_list), fname + " is not a classmethod")
             clsvar = f.args.args[0].arg
             touched = False
@@ -596,6 +645,7 @@ def parse_registries(mod):
                     raise GenError("setattr in " + fname)
             need(touched, fname + " does not change the registry " + attr)
         out[k] = inplace
+    out["norm"] = norm
     # every other function of SerializerBase only reads the registries
     for f in [n for n in base.body if isinstance(n, ast.FunctionDef) and not n.name.endswith(("register_dict_to_class", "register_class_to_dict"))]:
         for n in ast.walk(f):
@@ -721,6 +771,10 @@ def gen_classtag(tree):
     out += "   attribute through cls so that a serializer subclass gets its own shadowing copy (false)? *)\n"
     out += "Definition reg_d2c_inplace : bool := %s.\n" % cbool(regmode["dict_to_class"])
     out += "Definition reg_c2d_inplace : bool := %s.\n" % cbool(regmode["class_to_dict"])
+    out += "(* does register_dict_to_class / unregister_dict_to_class decode a bytes tag argument to text before using it as the key? *)\n"
+    out += "Definition reg_d2c_norm_register : bool := %s.\n" % cbool(regmode["norm"]["register_dict_to_class"])
+    out += "Definition reg_d2c_norm_unregister : bool := %s.\n" % cbool(regmode["norm"]["unregister_dict_to_class"])
+    need(not regmode["norm"]["register_class_to_dict"] and not regmode["norm"]["unregister_class_to_dict"], "class_to_dict registry rewrites its class argument")
     for ns, name in (("Pyro5.errors", "env_errors"), ("builtins", "env_builtins"), ("sqlite3", "env_sqlite3")):
         t = tables[ns]
         out += "Definition %s : list (list N * entry) :=   (* %d names *)\n  [%s].\n" % (
